@@ -6,7 +6,13 @@
    [builder_files own b]  all registered files in the order ReflectionServiceState::new walks them
    [first_named fs f]     f is registered and no file registered before it has its file name
    [declares f s]         inductive: s is the fully-qualified name of a message, nested message,
-                          field, oneof, enum, enum value, service or method of f (any depth)        *)
+                          field, oneof, enum, enum value, service or method of f (any depth)
+   [respond st h q]       the item the request loop sends for request q of host h: the message with
+                          its envelope (valid_host, original_request) or the status code that ends
+                          the stream
+   [obs_version serve own b queries script]
+                          the function ./check evaluates on every harness case and compares with
+                          what the real service did (one stream per query + one scripted stream)   *)
 From Coq Require Import String.
 From Verif Require Import Lib.Bytes Lib.Obs Model.Reflection Proofs.Reflection.
 Open Scope N_scope.
@@ -49,13 +55,16 @@ Theorem c19_file_found_iff : forall own b st, build own b = Ok st ->
   forall n f, file_by_filename st n = Some f <-> first_named (builder_files own b) f /\ f_name f = Some n.
 Proof. exact file_found_is_first_named. Qed.
 
-(* what goes over the wire decodes to what was registered (prost round trip as a hypothesis) *)
+(* What goes over the wire decodes to what was registered.  CONDITIONAL on prost: the only content
+   of these two statements beyond c19_files_exact / c19_symbols_complete is the shape of the
+   message (exactly one encoded descriptor); "decodes to" is the hypothesis on the external
+   encoder/decoder pair, which the harness samples on every returned descriptor. *)
 Theorem c19_file_retrievable_decodes :
   forall (encode_file : file -> list N) (decode_file : list N -> option file),
   (forall f, decode_file (encode_file f) = Some f) ->
   forall own b st n f, build own b = Ok st ->
   first_named (builder_files own b) f -> f_name f = Some n ->
-  exists bytes, wire_descriptors encode_file (answer st (FileByFilename n)) = Some [bytes] /\
+  forall h, exists bytes, wire_descriptors encode_file (respond st h (FileByFilename n)) = Some [bytes] /\
                 decode_file bytes = Some f.
 Proof. exact file_retrievable_decodes. Qed.
 
@@ -64,10 +73,59 @@ Theorem c19_symbol_resolves_decodes :
   (forall f, decode_file (encode_file f) = Some f) ->
   forall own b st f s, build own b = Ok st ->
   first_named (builder_files own b) f -> declares f s ->
-  exists bytes f', wire_descriptors encode_file (answer st (FileContainingSymbol s)) = Some [bytes] /\
+  forall h, exists bytes f', wire_descriptors encode_file (respond st h (FileContainingSymbol s)) = Some [bytes] /\
                    decode_file bytes = Some f' /\
                    first_named (builder_files own b) f' /\ declares f' s.
 Proof. exact symbol_resolves_decodes. Qed.
+
+(* the same two facts without any hypothesis, on the function the harness evaluates: the stream
+   of a single request for a registered file name / a declared name carries exactly one message,
+   the descriptor [f] (compared by the harness as file name + digest of the full content), with
+   the request echoed, and then ends cleanly *)
+Theorem c19_file_query_stream : forall own b st n f h, build own b = Ok st ->
+  first_named (builder_files own b) f -> f_name f = Some n ->
+  serve_v1 st false [Req h (FileByFilename n)] =
+  ([inl (mkReply h (Some (h, FileByFilename n)) (FileDescriptorResponse f))], Ended).
+Proof. exact file_query_stream. Qed.
+
+Theorem c19_symbol_query_stream : forall own b st f s h, build own b = Ok st ->
+  first_named (builder_files own b) f -> declares f s ->
+  exists f', first_named (builder_files own b) f' /\ declares f' s /\
+    serve_v1 st false [Req h (FileContainingSymbol s)] =
+    ([inl (mkReply h (Some (h, FileContainingSymbol s)) (FileDescriptorResponse f'))], Ended).
+Proof. exact symbol_query_stream. Qed.
+
+(* order-free form used by the oracle: whichever file answers to a file name, every name it
+   declares resolves (to a file declaring it); and the file a name resolves to is itself
+   retrievable under its own file name *)
+Theorem c19_live_file_symbols_resolve : forall own b st n f, build own b = Ok st ->
+  file_by_filename st n = Some f ->
+  forall s, declares f s -> exists f', symbol_by_name st s = Some f' /\ declares f' s.
+Proof. exact live_file_symbols_resolve. Qed.
+
+Theorem c19_resolved_file_is_retrievable : forall own b st s f, build own b = Ok st ->
+  symbol_by_name st s = Some f -> exists n, f_name f = Some n /\ file_by_filename st n = Some f.
+Proof. exact resolved_file_is_retrievable. Qed.
+
+(* [declares] as a list / a boolean (what the harness oracle's own reading of a descriptor is
+   compared with, kind spec.declared_names) *)
+Theorem c19_declared_names_spec : forall f s, In s (declared_names f) <-> declares f s.
+Proof. exact declared_names_spec. Qed.
+
+(* The property without the [first_named] side condition: if duplicate registration means
+   registering THE SAME file again (all files registered under one file name are equal - any
+   number of times, in any sets, decoded or encoded), then EVERY registered file is retrievable
+   under its name, every name it declares resolves to a registered file declaring it, and to the
+   file itself when no other registered file declares the name. *)
+Theorem c19_consistent_registration_full : forall own b st, build own b = Ok st ->
+  consistent (builder_files own b) ->
+  forall f, In f (builder_files own b) ->
+  (exists n, f_name f = Some n /\ file_by_filename st n = Some f) /\
+  (forall s, declares f s ->
+     exists f', symbol_by_name st s = Some f' /\ In f' (builder_files own b) /\ declares f' s) /\
+  (forall s, declares f s -> (forall g, In g (builder_files own b) -> declares g s -> g = f) ->
+     symbol_by_name st s = Some f).
+Proof. exact consistent_registration_full. Qed.
 
 (* the service list: the services declared by the non-shadowed files, in registration order,
    or exactly the names chosen with with_service_name, in call order *)
@@ -90,7 +148,9 @@ Theorem c19_unknown_file_not_found : forall own b st, build own b = Ok st ->
             (forall f, In f (builder_files own b) -> f_name f <> Some n).
 Proof. exact file_not_found_iff. Qed.
 
-(* v1 and v1alpha: the two request loops are the same function of the state ... *)
+(* v1 and v1alpha.  The two request loops are transcriptions of two Rust files with the same text
+   (v1.rs / v1alpha.rs differ in the pb module only); their equality is a fact about the
+   transcriptions, each of which is tied to its own file by the harness: *)
 Theorem c19_v1_eq_v1alpha : forall st evs closed, serve_v1 st closed evs = serve_v1alpha st closed evs.
 Proof. exact v1_eq_v1alpha. Qed.
 
@@ -113,14 +173,81 @@ Theorem c19_v1_v1alpha_agree : forall own1 own2 b st1 st2,
      (forall x, In x E2 -> exists f, In f own2 /\ In x (declared_services f))).
 Proof. exact v1_v1alpha_agree. Qed.
 
+(* The same on the observables ./check compares, for ANY two own descriptor sets:
+   (a) reflection descriptor excluded: the whole observable of a case is the same for both versions
+       (build result, every single-request stream, the scripted stream incl. its panic);
+   (b) included: every request that is neutral w.r.t. the own descriptors is answered alike;
+   (c) an error in the user's sets is the build error of both versions. *)
+Theorem c19_versions_same_observable : forall own1 own2 b queries script,
+  b_include_reflection b = false ->
+  obs_version serve_v1 own1 b queries script = obs_version serve_v1alpha own2 b queries script.
+Proof. exact obs_version_same_without_own. Qed.
+
+Theorem c19_versions_agree_on_neutral : forall own1 own2 b st1 st2,
+  build own1 b = Ok st1 -> build own2 b = Ok st2 ->
+  forall h q, neutral own1 own2 b q ->
+  serve_v1 st1 false [Req h q] = serve_v1alpha st2 false [Req h q].
+Proof. exact versions_agree_on_neutral. Qed.
+
+Theorem c19_versions_build_alike : forall own1 own2 b e,
+  new (b_names b) (b_encoded b) (b_sets b) (b_use_all b) = Err e ->
+  build own1 b = Err e /\ build own2 b = Err e.
+Proof. exact versions_build_alike_err. Qed.
+
+(* what ./check evaluates, in terms of [respond]: one answer per single-request stream *)
+Theorem c19_obs_version_built : forall own b st queries script, build own b = Ok st ->
+  obs_version serve_v1 own b queries script =
+  Nd [Nn 1; olist (fun hq => obs_stream ([respond st (fst hq) (snd hq)], Ended)) queries;
+      obs_stream (serve_v1 st false script)].
+Proof. exact obs_version_built. Qed.
+
 (* the request loop: answers in order up to and including the first error status *)
-Theorem c19_serve_answers : forall st qs,
-  serve_v1 st false (map Req qs) = (upto_first_error (map (answer st) qs), Ended).
+Theorem c19_serve_answers : forall st hqs,
+  serve_v1 st false (map req_of hqs) =
+  (upto_first_error (map (fun hq => respond st (fst hq) (snd hq)) hqs), Ended).
 Proof. exact serve_answers. Qed.
 
-(* [send(..).expect("send")] cannot fire while the client keeps the response stream *)
+(* every message sent echoes a request of the stream (valid_host, original_request) and carries
+   the answer to that very request - under any schedule of drops and malformed items *)
+Theorem c19_serve_echo : forall st evs closed, Forall (echoes st evs) (fst (serve_v1 st closed evs)).
+Proof. exact serve_echo. Qed.
+
+(* [send(..).expect("send")] cannot fire while the client keeps the response stream ... *)
 Theorem c19_serve_no_panic : forall st evs, ~ In RxDrop evs -> snd (serve_v1 st false evs) = Ended.
 Proof. exact serve_no_panic. Qed.
+
+(* ... and fires exactly when a request arrives after the client dropped the response stream on a
+   stream that no error status / malformed item had ended before *)
+Theorem c19_serve_panics_iff : forall st evs,
+  snd (serve_v1 st false evs) = Panic <->
+  exists pre mid h q post,
+    evs = pre ++ RxDrop :: mid ++ Req h q :: post /\
+    (forall e, In e pre -> answered_ok st e) /\ (forall e, In e mid -> e = RxDrop).
+Proof. exact serve_panics_iff. Qed.
+
+(* extension requests (outside the property text, recorded because "nothing else resolves" also
+   means: no extension request is ever answered with a descriptor): after any prefix of requests
+   that were answered with messages, an extension lookup ends the stream with NOT_FOUND whatever
+   is registered, and an all-extension-numbers request is answered with the empty list (also for
+   a type nobody declares) and the stream goes on.  Tie: harness kind extensions + the scripted
+   streams. *)
+Theorem c19_extension_requests : forall st pre h t n rest,
+  Forall (fun hq => exists r, respond st (fst hq) (snd hq) = inl r) pre ->
+  serve_v1 st false (map req_of pre ++ Req h (FileContainingExtension t n) :: rest) =
+    (map (fun hq => respond st (fst hq) (snd hq)) pre ++ [inr NOT_FOUND], Ended) /\
+  serve_v1 st false (map req_of pre ++ Req h (AllExtensionNumbersOfType t) :: rest) =
+    (map (fun hq => respond st (fst hq) (snd hq)) pre ++
+       inl (mkReply h (Some (h, AllExtensionNumbersOfType t)) AllExtensionNumbersResponse) ::
+       fst (serve_v1 st false rest),
+     snd (serve_v1 st false rest)).
+Proof. exact extension_requests_in_stream. Qed.
+
+(* a descriptor is sent only in answer to a file-name / symbol request and is the table entry *)
+Theorem c19_descriptor_only_from_tables : forall st h q r f,
+  respond st h q = inl r -> message_response r = FileDescriptorResponse f ->
+  (exists n, q = FileByFilename n /\ file_by_filename st n = Some f) \/
+  (exists s, q = FileContainingSymbol s /\ symbol_by_name st s = Some f).
+Proof. exact descriptor_only_from_tables. Qed.
 
 (* the service builds whenever every set decodes, every file is named and every non-shadowed
    file has all its names *)
@@ -130,6 +257,15 @@ Theorem c19_build_succeeds : forall own b,
   Forall (fun f => file_complete f = true) (effective (builder_files own b)) ->
   exists st, build own b = Ok st.
 Proof. exact build_succeeds. Qed.
+
+(* ... and only then (a missing name in a file that is looked at, an unnamed file or an
+   undecodable set is a build error, never a silently partial index) *)
+Theorem c19_build_ok_iff : forall own b,
+  (exists st, build own b = Ok st) <->
+  Forall (fun o => o <> None) (b_encoded b) /\
+  Forall (fun f => f_name f <> None) (builder_files own b) /\
+  Forall (fun f => file_complete f = true) (effective (builder_files own b)).
+Proof. exact build_ok_iff. Qed.
 
 (* ------------------------------------------------------------------ non-vacuity *)
 Module Ex.
@@ -195,6 +331,19 @@ Proof.
   - eapply D_message; [now left|]. apply (MD_message (s2b "p.q") (s2b "M")).
 Qed.
 
+(* the premise of c19_consistent_registration_full holds on a set in which a.proto is registered
+   twice (once decoded, once encoded) - and then the second registration is retrievable too *)
+Example c19_consistent_premises_hold :
+  let b3 := run_ops [RegisterSet [Ex.fa; Ex.fb]; RegisterEncoded (Some [Ex.fa]); IncludeReflection false] in
+  consistent (builder_files [] b3) /\ List.length (builder_files [] b3) = 3%nat /\
+  exists st, build [] b3 = Ok st /\ file_by_filename st (s2b "a.proto") = Some Ex.fa.
+Proof.
+  cbv zeta. split; [|split; [reflexivity|]].
+  - intros f g Hf Hg. cbn in Hf, Hg.
+    destruct Hf as [<-|[<-|[<-|[]]]], Hg as [<-|[<-|[<-|[]]]]; try reflexivity; intros E; vm_compute in E; discriminate.
+  - eexists. split; [vm_compute; reflexivity|]. vm_compute. reflexivity.
+Qed.
+
 Print Assumptions c19_symbols_complete.
 Print Assumptions c19_symbols_sound.
 Print Assumptions c19_symbols_last_writer.
@@ -205,3 +354,7 @@ Print Assumptions c19_unknown_symbol_not_found.
 Print Assumptions c19_v1_eq_v1alpha.
 Print Assumptions c19_v1_v1alpha_agree.
 Print Assumptions c19_build_succeeds.
+Print Assumptions c19_build_ok_iff.
+Print Assumptions c19_consistent_registration_full.
+Print Assumptions c19_versions_same_observable.
+Print Assumptions c19_serve_panics_iff.
